@@ -12,9 +12,15 @@ CONSTANTS
   RScan <- RScanAll
   RPadMode <- RPadModes
   RYminMode <- RYminModes
-  PMaxN = 12
+  PMaxN = 17
   PMaxW = 16
+  PMaxP = 16
+INVARIANT TypePart
 INVARIANT JobsDisjointSoFar
+INVARIANT JobsWellFormed
+INVARIANT PartitionCharacterised
+INVARIANT DroppedCharacterised
+INVARIANT CodeLawIsPartition
 INVARIANT PartitionOK
 INVARIANT EmitPart
 CHECK_DEADLOCK FALSE
